@@ -17,8 +17,8 @@ META = {
              'refinement = loop monitor (<= n+2 iterations). distinct = digest(curve, detector configuration); '
              'non-trivial = non-collinear curve (some consecutive triple has a cross product above the rounding floor)'),
     'require': {'curvature': 500, 'dfdt': 500, 'menger': 500, 'lmethod.get_knee': 500, 'lmethod.knee': 500, 'nontrivial': 1500},
-    'scale': {'quick': 1, 'thorough': 15},
-    'quick_cases': 5000, 'thorough_cases': 80000,
+    'scale': {'quick': 1, 'thorough': 150},
+    'quick_cases': 5000, 'thorough_cases': 800000,
     'assumptions': ['lmethod.knee with limit <= 3 is outside the domain (the truncated curve falls below the 5 points the method needs)',
                     'the L-method error is the library\'s documented length-weighted form (weight*sqrt(weight*RSS) / weight*RSS)',
                     'uts.gradient / uts.thresholding (installed dependency) are taken as given'],
